@@ -75,7 +75,16 @@ fn main() {
                 run_grammar(&g, &inputs, &mut w, id);
             }
         }
-        _ => { eprintln!("usage: c01 random COUNT SEED [MAXLEN] [nostack]"); std::process::exit(2); }
+        // one GRAMMAR_TEXT INPUT...: a hand-written grammar in pest syntax (the AST is taken from the real reader)
+        "one" => {
+            let text = arg(2);
+            let pairs = pest_meta::parser::parse(pest_meta::parser::Rule::grammar_rules, &text).expect("grammar does not parse");
+            let ast = pest_meta::parser::consume_rules(pairs).expect("grammar rejected");
+            let g = from_rules(&ast);
+            let inputs: Vec<String> = std::env::args().skip(3).collect();
+            run_grammar(&g, &inputs, &mut w, 0);
+        }
+        _ => { eprintln!("usage: c01 random COUNT SEED [MAXLEN] [nostack] | one GRAMMAR INPUT.."); std::process::exit(2); }
     }
     writeln!(w, "#SUMMARY\tevaluations={}\tdistinct_nontrivial={}\tgrammars={}\trejected={}\tok={}\tpanics={}\tlimits={}", n, nontriv, grammars, rejected, oks, panics, limits).unwrap();
 }
